@@ -115,6 +115,12 @@ class Spec(PropSpec):
             c = F.gen_safe(rng, stale=0.0, tokio=0.5, latency=rng.random() < 0.5)
             c["flavour"] += "+tokio"
             cases.append(c)
+        # two hosts of a real turmoil::Sim with identical path names (per-host Fs entered by the Sim)
+        for _ in range(40 * k):
+            c = F.gen_safe(rng, stale=0.0, nhosts=2)
+            c["cfg"]["via"] = "sim"
+            c["flavour"] += "+Sim"
+            cases.append(c)
         return cases
 
     def to_model(self, case, obs):
